@@ -207,7 +207,10 @@ Fixpoint brun (s : bst) (sched : list tid) : bst :=
    gate).  Internal steps are all the others.  `quiesce` runs internal steps, lowest thread
    first, until none is enabled; `release` lets one parked call return. *)
 Definition parked_call (w : wstate) : option (nat * nat) :=
-  match w with WRun i (PExec a _) => Some (i, a) | _ => None end.
+  match w with
+  | WRun i (PExec a _) => if has_exec c then Some (i, a) else None   (* no exec function: no user code to park in *)
+  | _ => None
+  end.
 
 Definition parked (s : bst) : list (nat * nat) :=
   flat_map (fun w => match parked_call w with Some p => [p] | None => [] end) (ws s).
@@ -216,7 +219,7 @@ Definition internal_enabled (s : bst) (t : tid) : bool :=
   match t with
   | TWorker k =>
       match nth_error (ws s) k with
-      | Some (WRun _ (PExec _ _)) => false
+      | Some (WRun _ (PExec _ _)) => negb (has_exec c)
       | _ => match bstep s t with Some _ => true | None => false end
       end
   | TWorkerExit k =>
